@@ -564,3 +564,10 @@ def safe_fullmatch_escaped(module: Node, other: Node) -> bool:
 def unsafe_prefix_with_separator_cut_off(module: Node, other: Node) -> bool:
     dotted = other + "."
     return module.startswith(dotted[:-1])
+
+
+class _Naming:
+    SEPARATOR = "."
+
+    def safe_class_constant_separator(self, module: Node, other: Node) -> bool:
+        return module == other or module.startswith(other + self.SEPARATOR) or module.startswith(other + _Naming.SEPARATOR)
